@@ -523,7 +523,7 @@ func runC09(rc *fw.RunCtx) {
 			s.FreeRun()
 		})
 	}
-	s.Until = func() bool { return len(aliveExcept(s, "vm.watcher")) == 0 }
+	s.Until = func() bool { return len(aliveExcept(s, "vm.watcher", "file.watcher")) == 0 }
 	verdict := s.Run()
 	s.Shutdown(cancel)
 	if raceBuild {
